@@ -66,8 +66,13 @@ Definition preserved (orig trans : res cval) : bool :=
 Definition entry_fn (P : program) (f : ident) : func :=
   match lookup_fn P f with Some fn => fn | None => Func [] None [] end.
 
+(* the names that may only correspond to themselves: the user's names that still occur in the model output
+   (a name a pass removed altogether, e.g. a discarded comprehension target, is free for a later Gensym) *)
+Definition fixed_names (P : program) (f : ident) (m : func) : list ident :=
+  filter (fun x => mem x (func_names m)) (func_names (entry_fn P f)).
+
 Definition matches (P : program) (f : ident) (m real : func) : bool :=
-  func_alpha_eqb (func_names (entry_fn P f)) m real.
+  func_alpha_eqb (fixed_names P f m) m real.
 
 (* which model the real output equals: the transform as coded, else the repaired one *)
 Definition coded_ok (c : case8) : bool :=
@@ -87,7 +92,7 @@ Definition struct_ok (c : case8) : bool := coded_ok c || fixed_ok c.
 (* the real output is the model output with a generated temporary merged into another name *)
 Definition name_collision (c : case8) : bool :=
   let '(P, f, t, real, _) := c in
-  negb (struct_ok c) && func_alpha_relaxed (func_names (entry_fn P f)) (apply_t t (entry_fn P f)) real.
+  negb (struct_ok c) && func_alpha_relaxed (fixed_names P f (apply_t t (entry_fn P f))) (apply_t t (entry_fn P f)) real.
 
 Definition prop_ok (c : case8) : bool :=
   let '(_, _, _, _, runs) := c in forallb (fun r : run8 => let '(_, _, pre, o, t) := r in negb pre || preserved o t) runs.
